@@ -110,3 +110,25 @@ def gen_invertible(rng, depth, dt, n=None, psd=False, leaf_kinds=None, comps=Non
             return {"k": "Sum", "via": S.pick(rng, ["ctor", "fn"]),
                     "args": [gen_invertible(rng, d, dt, n, True, leaf_kinds, comps) for _ in range(2)]}
     return psd_leaf(rng, n, dt, leaf_kinds) if psd else gen_leaf(rng, n, dt, leaf_kinds)
+
+
+def in_units(node, u):
+    """The same tree with every leaf whose values are given explicitly (Diagonal vals, ScalarMul c, spectra of Dense / Generic
+    leaves) expressed in another unit u: conditioning and definiteness are unchanged, the entries are tiny / huge."""
+    if not isinstance(node, dict):
+        return node
+    out = {k: ([in_units(c, u) for c in v] if k in ("args", "head", "tail") else (in_units(v, u) if k == "arg" else v)) for k, v in node.items()}
+    if "args" in out or "arg" in out:
+        return out
+
+    def sc(e):
+        return {"re": e["re"] * u, "im": e["im"] * u} if isinstance(e, dict) else e * u
+    if out.get("k") == "Diagonal" and "vals" in out:
+        out["vals"] = [sc(e) for e in out["vals"]]
+    elif out.get("k") == "ScalarMul":
+        out["c"] = sc(out["c"])
+    elif out.get("k") in ("Dense", "Generic"):
+        for key in ("eigs", "svals"):
+            if key in out:
+                out[key] = [sc(e) for e in out[key]]
+    return out
